@@ -75,6 +75,8 @@ const (
 	EOkCompat
 	EOkStruct
 	EOkSer
+	EOkUniqLive // a uniqueness-checking call on the live index succeeded
+	EOkUniqTemp // a uniqueness-checking call on a scratch index succeeded
 	// sentinel error sources (value flows towards a return)
 	EErrUnique
 	EErrInvalid
@@ -90,6 +92,17 @@ const (
 	EErrNoObject
 	EErrNotIndexed
 	EErrOther
+	// derived effects
+	ECanon        // a call whose closure contains CASE returned (schema case transforms applied)
+	EDirty        // live index / settings changed since the last schema commit (set by IDX.w(live)/CFG.w, cleared by FS.write(schema))
+	ECallDelCache // a store-delete call on the cache store was made
+	ECallDelPend  // a store-delete call on the pending store was made
+	ECallUnindex  // an index-delete call on the live index was made
+	ECallFlushPend // a flush call on the pending store (or one of its maps) was made
+	ECallCommit    // a call of the schema-commit family (closure encodes and writes the schema file) was made
+	ECallGetCache  // a lookup call on the cache store was made
+	ECallStarter   // a call whose closure spawns a goroutine was made (flusher starter)
+	ECallWriteObj  // a call of the object-write family (closure writes an object file) was made
 	// pseudo effects, only used in call-graph closures
 	EAccessG // touches a field of a struct type declared in sod
 	ELockOp  // calls a sync lock method
@@ -104,9 +117,10 @@ var effNames = [...]string{
 	"FS.mkdir", "FS.rename", "FS.read(object)", "FS.read(schema)", "FS.read(other)", "FS.stat(object)", "FS.stat(schema)", "FS.stat(other)", "FS.readdir", "FS.sync",
 	"JSON.enc(object)", "JSON.enc(schema)", "JSON.enc(other)", "JSON.dec",
 	"HOOK.Transform", "HOOK.Validate", "HOOK.Initialize", "HOOK.UUID", "CASE", "GO", "SLEEP", "CHAN", "PANIC", "CANCEL", "CTX.err", "UUID.new", "REGEXP", "CLONE",
-	"ok(Validate)", "ok(UNIQ.check)", "ok(ACCEPT)", "ok(SCHEMA.get)", "ok(OBJ.read)", "ok(COMPAT)", "ok(STRUCT)", "ok(SERIALISE)",
+	"ok(Validate)", "ok(UNIQ.check)", "ok(ACCEPT)", "ok(SCHEMA.get)", "ok(OBJ.read)", "ok(COMPAT)", "ok(STRUCT)", "ok(SERIALISE)", "ok(UNIQ.check live)", "ok(UNIQ.check temp)",
 	"ERR(ConstraintUnique)", "ERR(InvalidObject)", "ERR(IndexCorrupted)", "ERR(StructureChanged)", "ERR(FieldDescModif)", "ERR(ExtensionMismatch)", "ERR(WrongObjectType)",
-	"ERR(UnkownSearchOperator)", "ERR(Casting)", "ERR(UnkownField)", "ERR(UnknownKeyType)", "ERR(NoObjectFound)", "ERR(FieldNotIndexed)", "ERR(other)", "ACCESS", "LOCKOP",
+	"ERR(UnkownSearchOperator)", "ERR(Casting)", "ERR(UnkownField)", "ERR(UnknownKeyType)", "ERR(NoObjectFound)", "ERR(FieldNotIndexed)", "ERR(other)",
+	"CANON", "DIRTY", "CALL.del(cache)", "CALL.del(pending)", "CALL.unindex(live)", "CALL.flush(pending)", "CALL.commit", "CALL.get(cache)", "CALL.starter", "CALL.writeObject", "ACCESS", "LOCKOP",
 }
 
 func (e Eff) String() string {
@@ -465,7 +479,7 @@ func staticEffects(p *Prog, in ssa.Instruction) EffSet {
 			switch {
 			case n == a.ObjIndex || n == a.FieldIndex || n == a.IndexedField:
 				s = s.Union(effs(EIdxWLive, EIdxWTemp, EIdxWUnk))
-			case n == a.Async || (n == a.Schema && (f == a.SchCache || f == a.SchAsync)):
+			case (n == a.Async && f.Exported()) || (n == a.Schema && (f == a.SchCache || f == a.SchAsync)):
 				s = s.With(ECfgW)
 			}
 		}
